@@ -79,6 +79,7 @@ def run(idx: ProgramIndex, rep: Report, tier: str):
     rep.floor("C14-1", "KL sites", n, 4)
     prior_jitter(idx, rep)
     point_mass_terms(idx, rep)
+    decoupled_slices(idx, rep)
     # C14-2
     vs = idx.find_class("_VariationalStrategy")
     m = 0
@@ -483,3 +484,40 @@ def point_mass_terms(idx: ProgramIndex, rep: Report):
                         probs.append("`%s` (line %d) adds -log p(mean) as if it were a divergence: the total exceeds KL(N(m, S) || p) by the prior's normalising constant, so q(u) = p(u) does not give KL = 0" % (" ".join(src(c).split())[:60], c.lineno))
         rep.add("C14-10", "%s:%s.kl_divergence" % (cls.module.name, cls.qualname), kl.where, not probs, "no point-mass term" if not probs else "; ".join(probs), {})
     rep.floor("C14-10", "kl_divergence implementations of strategies", n, 4)
+
+
+# ---- C14-11 --------------------------------------------------------------------------------------------------------
+def decoupled_slices(idx: ProgramIndex, rep: Report):
+    """BatchDecoupledVariationalStrategy stacks two sets of inducing points (and kernel hyper-parameters) along one batch dimension:
+    slice 0 parameterises the predictive mean, slice 1 the predictive covariance.  On every returning path of forward the mean handed to
+    the result must be built from `.select(<decoupling dim>, 0)` slices only and the covariance from `.select(<decoupling dim>, 1)` slices
+    only (inlined expressions): a mean computed from slice 1 is the mean of an ordinary coupled SVGP on the covariance's inducing points."""
+    from ..symbolic import inline, walk_paths
+    rep.rule("C14-11", "batch-decoupled strategy: the predictive mean is assembled from slice 0 and the predictive covariance from slice 1 of the decoupling dimension, on every path")
+    cls = idx.find_class("BatchDecoupledVariationalStrategy")
+    fi = idx.method(cls, "forward", own=True)
+    n = 0
+    probs = set()
+    for path, seq in walk_paths(fi):
+        if path.outcome != "return" or path.end is None or getattr(path.end, "value", None) is None:
+            continue
+        env = {}
+        for st, e_ in seq:
+            if st is path.end:
+                env = e_
+        r = inline(path.end.value, env)
+        if not (isinstance(r, ast.Call) and (chain(r.func) or "").split(".")[-1] == "MultivariateNormal" and len(r.args) >= 2):
+            continue
+        n += 1
+        for what, e, want in (("mean", r.args[0], 0), ("covariance", r.args[1], 1)):
+            sel = set()
+            for c in ast.walk(e):
+                if isinstance(c, ast.Call) and isinstance(c.func, ast.Attribute) and c.func.attr == "select" and len(c.args) == 2 and "mean_var_batch_dim" in src(c.args[0]):
+                    k = c.args[1]
+                    sel.add(k.value if isinstance(k, ast.Constant) else src(k))
+            if not sel:
+                probs.add("the predictive %s is not assembled from a slice of the decoupling dimension" % what)
+            elif sel != {want}:
+                probs.add("the predictive %s uses slice(s) %s of the decoupling dimension, expected %d only" % (what, sorted(sel, key=str), want))
+    rep.add("C14-11", "%s:BatchDecoupledVariationalStrategy.forward[slices]" % cls.module.name, fi.where, n > 0 and not probs,
+            "mean from slice 0, covariance from slice 1 on %d returning path(s)" % n if n > 0 and not probs else "; ".join(sorted(probs)) or "no constructing return found", {})
